@@ -166,5 +166,5 @@ fn c12_guard_off_classic_n3() {
 #[kani::stub(srtla_core::selection::enhanced::in_flight_cap_exceeded, crate::c03::cap_exceeded_abs)]
 #[kani::stub(srtla_core::selection::enhanced::cc_soft_cap_multiplier, crate::c03::soft_cap_abs)]
 fn c12_guard_off_enhanced_n2() {
-    check_guard_off_baseline::<2>(SchedulingMode::Enhanced, SYM_FULL, true);
+    check_guard_off_baseline::<2>(SchedulingMode::Enhanced, SYM_LEAF, true);
 }
